@@ -1,6 +1,7 @@
 import PyamgV.Generated.PyLogic2
-import PyamgV.Proofs.ExtPyRtLemmas
+import PyamgV.Proofs.ExtPy2RtLemmas
 import PyamgV.Model.C16Coarse
+import PyamgV.Model.ExtPy2Worlds
 /-! PyamgV (extension E42, property C16): theorems about the definition GENERATED from the working tree by
 `harness/py2lean2.py` for `coarse_grid_solver` (pyamg/multilevel.py): the dispatch on the solver name / `None` /
 callable / `(solver, kwargs)` tuple, linked to the hand-written dispatch chain `C16.dispatch` of
@@ -11,17 +12,10 @@ namespace PyamgV.ExtPy2Coarse
 
 abbrev cgs := multilevel_coarse_grid_solver
 
-/-- which of the seven Krylov names `pyamg.krylov` has (the others are taken from `scipy.sparse.linalg`); compared
-with `hasattr` on the real modules by the check on every run (`ext_py2_coarse_world`) -/
-def krylovHas : List String := ["bicgstab", "cg", "gmres"]
-def slaHas : List String := ["bicg", "bicgstab", "cg", "cgs", "gmres", "qmr", "minres"]
-
-/-- the world `coarse_grid_solver` looks at: the two solver modules; `nc` = the opaque objects that are not callable -/
-def world (nc : List String) : World where
-  heap := [("krylov", krylovHas.map (fun n => (n, PyVal.obj ("krylov." ++ n)))),
-           ("sla", slaHas.map (fun n => (n, PyVal.obj ("sla." ++ n))))]
-  closed := ["krylov", "sla"]
-  noncallable := nc
+/-- the world `coarse_grid_solver` looks at (Model/ExtPy2Worlds.lean): which of the seven Krylov names `pyamg.krylov`
+has (`krylovHas`), the others come from `scipy.sparse.linalg`; `nc` = the opaque objects that are not callable -/
+abbrev world (nc : List String) : World := PyamgV.ExtPy2W.coarseWorld nc
+abbrev krylovHas : List String := PyamgV.ExtPy2W.krylovHas
 
 def strsOf (xs : List PyVal) : List String := xs.filterMap (fun x => match x with | .str s => some s | _ => Option.none)
 
@@ -45,7 +39,6 @@ def kindOf (inst : PyVal) : Option C16.Kind :=
     | _, _ => Option.none
   | _ => Option.none
 
-def allNames : List String := ["pinv", "pinv2", "lu", "cholesky", "splu"] ++ C16.krylovNames ++ C16.relaxNames
 
 /-- the captured keyword dictionary of the `solve` closure -/
 def kwargsOf (inst : PyVal) : Option PyVal :=
@@ -124,5 +117,127 @@ theorem str_refines (nc : List String) (s : String) :
   · have hd := dispatch_none_of_not_mem s hs
     obtain ⟨e, he, _⟩ := unknown_name (world nc) s hd
     rw [he, hd]; rfl
+
+/-- `None`: the solver that returns zero -/
+theorem none_refines (w : World) : (cgs w .none).toOption.bind kindOf = some .noSolve := rfl
+
+/-- a callable object: the pass-through closure -/
+theorem obj_callable (w : World) (p : String) (hc : isCallable w (.obj p) = true) :
+    (cgs w (.obj p)).toOption.bind kindOf = some .callable := by
+  simp [cgs, multilevel_coarse_grid_solver, multilevel_coarse_grid_solver_unpack_arg, pyIsInst, PyVal.tyName,
+    pyUnpack, pyIter, unpackAt, pyIn, pyEq, pyIsNone, hc]
+  rfl
+
+/-- an object that is not callable: `ValueError` -/
+theorem obj_noncallable (w : World) (p : String) (hc : isCallable w (.obj p) = false) :
+    ∃ e, cgs w (.obj p) = .error e ∧ e.cls = "ValueError" := by
+  simp [cgs, multilevel_coarse_grid_solver, multilevel_coarse_grid_solver_unpack_arg, pyIsInst, PyVal.tyName,
+    pyUnpack, pyIter, unpackAt, pyIn, pyEq, pyIsNone, hc]
+  exact ⟨_, rfl, rfl⟩
+
+/-- LINK (opaque objects): callable iff the model's `Arg.callable` -/
+theorem obj_refines (nc : List String) (p : String) :
+    ((cgs (world nc) (.obj p)).toOption.bind kindOf) = C16.dispatch (argOf nc (.obj p)) := by
+  by_cases h : p ∈ nc
+  · have hc : isCallable (world nc) (.obj p) = false := by simp [isCallable, world, PyamgV.ExtPy2W.coarseWorld, h]
+    obtain ⟨e, he, _⟩ := obj_noncallable _ p hc
+    rw [he]
+    simp [argOf, h, C16.dispatch, Except.toOption]
+  · have hc : isCallable (world nc) (.obj p) = true := by simp [isCallable, world, PyamgV.ExtPy2W.coarseWorld, h]
+    rw [obj_callable _ p hc]
+    simp [argOf, h, C16.dispatch]
+
+/-- numbers, Booleans, lists, dictionaries: `ValueError` (`Arg.other`) -/
+theorem other_raises (w : World) (v : PyVal)
+    (hv : match v with | .bool _ | .int _ | .float _ | .list _ | .dict _ => True | _ => False) :
+    ∃ e, cgs w v = .error e ∧ e.cls = "ValueError" := by
+  cases v <;> simp at hv <;>
+    simp [cgs, multilevel_coarse_grid_solver, multilevel_coarse_grid_solver_unpack_arg, pyIsInst, PyVal.tyName,
+      pyUnpack, pyIter, unpackAt, pyIn, pyEq, pyIsNone, isCallable] <;>
+    exact ⟨_, rfl, rfl⟩
+
+/-- `(solver,)` and `()`: `unpack_arg` raises `IndexError` -/
+theorem short_tuple_raises (w : World) (xs : List PyVal) (h : xs.length < 2) :
+    ∃ e, cgs w (.tuple xs) = .error e ∧ e.cls = "IndexError" := by
+  match xs, h with
+  | [], _ =>
+    simp [cgs, multilevel_coarse_grid_solver, multilevel_coarse_grid_solver_unpack_arg, pyIsInst, PyVal.tyName,
+      getItem2, pyGetItem, PyVal.int?, normIdx, raise_def]
+  | [a], _ =>
+    simp [cgs, multilevel_coarse_grid_solver, multilevel_coarse_grid_solver_unpack_arg, pyIsInst, PyVal.tyName,
+      getItem2, pyGetItem, PyVal.int?, normIdx, raise_def]
+
+/-! ### the `(solver, kwargs)` form and the keyword handling -/
+
+def directNames : List String := ["pinv", "pinv2", "lu", "cholesky", "splu"]
+
+/-- direct and Krylov names: the kind is that of the name and the closure captures the caller's second tuple entry as
+it is (whatever it is: it is only used as `**kwargs` inside `solve`) -/
+theorem pair_direct_krylov (nc : List String) (b : PyVal) (rest : List PyVal) :
+    ∀ s ∈ directNames ++ C16.krylovNames,
+      ((cgs (world nc) (.tuple (.str s :: b :: rest))).toOption.bind kindOf) = C16.dispatch (.str s) ∧
+      ((cgs (world nc) (.tuple (.str s :: b :: rest))).toOption.bind kwargsOf) = some b := by
+  intro s hs
+  simp only [directNames, C16.krylovNames, List.cons_append, List.nil_append, List.mem_cons,
+    List.not_mem_nil, or_false] at hs
+  rcases hs with rfl | rfl | rfl | rfl | rfl | rfl | rfl | rfl | rfl | rfl | rfl | rfl <;> exact ⟨rfl, rfl⟩
+
+/-- `None` and callables in a tuple -/
+theorem pair_none (w : World) (b : PyVal) (rest : List PyVal) :
+    (cgs w (.tuple (.none :: b :: rest))).toOption.bind kindOf = some .noSolve := rfl
+
+theorem pair_callable (w : World) (p : String) (b : PyVal) (rest : List PyVal) (hc : isCallable w (.obj p) = true) :
+    ((cgs w (.tuple (.obj p :: b :: rest))).toOption.bind kindOf) = some .callable ∧
+    ((cgs w (.tuple (.obj p :: b :: rest))).toOption.bind kwargsOf) = some b := by
+  simp [cgs, multilevel_coarse_grid_solver, multilevel_coarse_grid_solver_unpack_arg, pyIsInst, PyVal.tyName,
+    pyUnpack, pyIter, unpackAt, pyIn, pyEq, pyIsNone, getItem2, pyGetItem, PyVal.int?, normIdx, hc]
+  exact ⟨rfl, rfl⟩
+
+/-- `kwargs['iterations'] = 10` unless the caller gave `iterations` -/
+def withIterations (kw : List (String × PyVal)) : List (String × PyVal) :=
+  if kw.any (fun e => e.1 == "iterations") then kw else kw ++ [("iterations", .int 10)]
+
+/-- relaxation names with a keyword dictionary: the kind is `relax name`, and the captured dictionary is the caller's
+with `iterations` defaulting to 10 -/
+theorem pair_relax (nc : List String) (kw : List (String × PyVal)) (rest : List PyVal) :
+    ∀ s ∈ C16.relaxNames,
+      ((cgs (world nc) (.tuple (.str s :: .dict kw :: rest))).toOption.bind kindOf) = some (.relax s) ∧
+      ((cgs (world nc) (.tuple (.str s :: .dict kw :: rest))).toOption.bind kwargsOf) = some (.dict (withIterations kw)) := by
+  intro s hs
+  simp only [C16.relaxNames, List.mem_cons, List.not_mem_nil, or_false] at hs
+  cases hk : kw.any (fun e => e.1 == "iterations") <;>
+    rcases hs with rfl | rfl | rfl | rfl | rfl | rfl | rfl | rfl | rfl | rfl | rfl <;>
+    · simp [cgs, multilevel_coarse_grid_solver, multilevel_coarse_grid_solver_unpack_arg, withIterations, dictInsert, hk]
+      exact ⟨rfl, rfl⟩
+
+/-- the plain form of a relaxation name: `{'iterations': 10}` -/
+theorem plain_relax_kwargs (nc : List String) :
+    ∀ s ∈ C16.relaxNames, ((cgs (world nc) (.str s)).toOption.bind kwargsOf) = some (.dict [("iterations", .int 10)]) := by
+  intro s hs
+  simp only [C16.relaxNames, List.mem_cons, List.not_mem_nil, or_false] at hs
+  rcases hs with rfl | rfl | rfl | rfl | rfl | rfl | rfl | rfl | rfl | rfl | rfl <;> rfl
+
+/-- a relaxation name with a second entry that is not a container: `'iterations' not in kwargs` raises `TypeError` -/
+theorem pair_relax_bad_kwargs (w : World) (b : PyVal) (rest : List PyVal)
+    (hb : match b with | .none | .bool _ | .int _ | .float _ | .obj _ => True | _ => False) :
+    ∀ s ∈ C16.relaxNames, ∃ e, cgs w (.tuple (.str s :: b :: rest)) = .error e ∧ e.cls = "TypeError" := by
+  intro s hs
+  simp only [C16.relaxNames, List.mem_cons, List.not_mem_nil, or_false] at hs
+  cases b <;> simp at hb <;>
+    rcases hs with rfl | rfl | rfl | rfl | rfl | rfl | rfl | rfl | rfl | rfl | rfl <;>
+    exact ⟨_, rfl, rfl⟩
+
+/-- Krylov names: `pyamg.krylov` takes precedence (keyword `tol`), otherwise `scipy.sparse.linalg` (keyword `rtol`) -/
+theorem krylov_source (nc : List String) :
+    ∀ s ∈ C16.krylovNames,
+      ((cgs (world nc) (.str s)).toOption.bind krylovOf) =
+        some (if krylovHas.contains s then (.obj ("krylov." ++ s), .str "tol") else (.obj ("sla." ++ s), .str "rtol")) := by
+  intro s hs
+  simp only [C16.krylovNames, List.mem_cons, List.not_mem_nil, or_false] at hs
+  rcases hs with rfl | rfl | rfl | rfl | rfl | rfl | rfl <;> rfl
+
+/-- a Krylov name neither module has: `getattr` raises `AttributeError` (the closed world without `sla.qmr`) -/
+example : ∃ e, cgs { heap := [("krylov", []), ("sla", [])], closed := ["krylov", "sla"] } (.str "qmr") = .error e
+    ∧ e.cls = "AttributeError" := ⟨_, rfl, rfl⟩
 
 end PyamgV.ExtPy2Coarse
